@@ -431,6 +431,47 @@ def check_overrides(tname, acc):
                                 return
 
 
+def check_multi_override(order, how, acc):
+    """An override with several entries at one level - a compartment
+    entry and a process entry, in either order - reaches all of them."""
+    case = {'part': 'multi-override', 'order': order, 'how': how}
+    acc.case(key=('multi-override', order, how), outcome='override')
+    entries = {
+        'inner': {'q': {'port': {'x': {'_default': 111}}}},
+        'p': {'port': {'x': {'_default': 222}}, 'extra': {}},
+    }
+    ov = {k: copy.deepcopy(entries[k]) for k in order}
+    ov['p'].pop('extra')
+    try:
+        if how == 'composer':
+            comp = ProbeComposer({'template': 'nested',
+                                  '_schema': ov}).generate()
+        elif how == 'composite':
+            t = TEMPLATES['nested']
+            comp = Composite({
+                'processes': probes.build_tree(
+                    copy.deepcopy(t['processes'])),
+                'topology': copy.deepcopy(t['topology']), '_schema': ov})
+        else:
+            comp = ProbeComposer({'template': 'nested'}).generate()
+            comp.merge(schema_override=ov)
+        got_q = comp['processes']['inner']['q'].get_schema()[
+            'port']['x'].get('_default')
+        got_p = comp['processes']['p'].get_schema()[
+            'port']['x'].get('_default')
+    except Exception as e:  # noqa
+        acc.violate(fw.violation(
+            'C16.crash', f'multi-override:{type(e).__name__}',
+            f'{case}: {e!r}', case))
+        return
+    if (got_q, got_p) != (111, 222):
+        acc.violate(fw.violation(
+            'C16.override', 'override-entry-dropped',
+            f'override with entries {list(order)} given through {how}: '
+            f'inner/q default {got_q} (111), p default {got_p} (222)',
+            case))
+
+
 def check_late_override(tname, acc):
     """An override merged AFTER the composite was loaded once still
     reaches the store and the engine built afterwards."""
@@ -635,6 +676,9 @@ def run_job(job, acc):
     if kind == 'meta':
         check_meta(job[1], job[2], job[3], acc)
         return
+    if kind == 'multi-override':
+        check_multi_override(job[1], job[2], acc)
+        return
     if kind == 'override-survives':
         check_override_survives(job[1], job[2], acc)
         return
@@ -671,6 +715,9 @@ def jobs(ctx):
         for as_step in (False, True):
             for renamed in (False, True):
                 out.append(('process-generate', path, as_step, renamed))
+    for order in (('inner', 'p'), ('p', 'inner')):
+        for how in ('composer', 'composite', 'merge'):
+            out.append(('multi-override', order, how))
     for how in ('config', 'merge'):
         for later in ('none', 'replace', 'unrelated', 'other-override'):
             out.append(('override-survives', how, later))
@@ -697,6 +744,8 @@ def replay(case):
         check_merges(tup(case['sequence']), acc)
     elif case['part'] == 'late-override':
         check_late_override(case['template'], acc)
+    elif case['part'] == 'multi-override':
+        check_multi_override(tup(case['order']), case['how'], acc)
     elif case['part'] == 'meta':
         check_meta(case['t1'], case['t2'], tup(case['path']), acc)
     elif case['part'] == 'process-generate':
@@ -710,3 +759,7 @@ def replay(case):
     else:
         check_overrides(case['template'], acc)
     return [v for exs in acc.viol_examples.values() for v in exs]
+
+
+RULE += (
+    ' Overrides with several entries at one level (compartment entry first or last) through Composer config, Composite config and merge.')
